@@ -9,6 +9,20 @@ TB = ('trusted: clang 14 parser/constant evaluator/CFG builder as driven by tool
       'flags -std=gnu++20 -DNDEBUG -DLOG_LEVEL=0 stand for the release build; ')
 
 CHECKS = {
+    'C19': dict(
+        category='other',
+        text='Partial. Reader: every use of the 16-byte record buffer is governed by a test of the stream made after the read that filled '
+             'it, one append per complete record under its own key, nobody else changes the book; layout: key bytes 0-7 big-endian, move '
+             '8-9, weight 10-11, every byte masked, move-code fields (to-file 0-2, to-rank 3-5, from-file 6-8, from-rank 9-11, promotion '
+             '12-14, codes 1..4 = N,B,R,Q), argument wiring; decode_move\'s castling table as normalised atoms; best = max_element by weight '
+             'over all records of the key; random = sum over all records, sample = random % sum computed only for a positive sum, cumulative '
+             'walk selecting the first record whose cumulative weight exceeds the sample (operator chosen to match the sample base), so a '
+             'zero-weight record is never selected and each record owns exactly `weight` of the `sum` samples; all-zero keys fall back to '
+             'the search; both policies answer decode_move(selected.first); start_searching probes with hash(position) and answers or '
+             'searches. Uniformity of the random source (modulo bias) and hence exact proportionality is not decided.',
+        design_ref='DESIGN.md §3 C19',
+        note=TB + 'std::istream::read, std::map, std::max_element, std::mt19937 behave as specified.',
+        technique='static: dominating-guard rule (check-after-read), PACK/byte-layout extraction, guard-atom tables, cumulative-walk idiom rule'),
     'C18': dict(
         category='other',
         text='Partial. (R1) the 781 clang-evaluated constants, put into the specification order through the engine\'s Piece numbering '
